@@ -9,7 +9,7 @@ func init() {
 	register("C02", "Decided: ModR/M and SIB tables, special cases, displacement thresholds, SIB presence, consumption of every parsed address component, operator handling in the operand grammar, 67h predicate, agreement of the pass-1 displacement/SIB sizing. Not decided: the path-sensitive composition of the calculator's branches.",
 		ruleT6, ruleQ2, ruleE8, ruleG2, ruleT1, ruleT1e, ruleI1, ruleP3, ruleZ3, ruleZ3b, ruleD2, ruleF8size, ruleM2, ruleE1, ruleE1b, ruleE3, ruleE3s)
 	register("C03", "Decided: advance-iff-emit on every handler path, constant size rules vs emitter lengths, size-model terms and prefix predicates, data-directive lockstep, label/$ = LOC, pass-2 hand-over. Not decided: equality of the two size computations on every operand value.",
-		ruleP8, ruleW3, ruleS3, ruleS3e, ruleF8size, ruleZ3, ruleP7, ruleP7e, ruleF2, ruleN5, ruleP5, ruleP3, ruleF8a, ruleM2, ruleZ3b, ruleO3, ruleC2P, ruleE1, ruleE1b, ruleE3, ruleE3s)
+		ruleP8, ruleW3, ruleS3, ruleS3e, ruleF8size, ruleZ3, ruleP7, ruleP7e, ruleF2, ruleN5, ruleP5, ruleP3, ruleF8a, ruleM2, ruleZ3b, ruleO3, ruleC2P, ruleF8o, ruleE1, ruleE1b, ruleE3, ruleE3s)
 	register("C04", "Decided: condition codes, opcode bytes, length-adjusted displacement, range test on the narrowed value, little-endian fields, origin in the current address, mode guards. Not decided: that pass 1 leaves the target where the emitter assumes it.",
 		ruleT3, ruleT3k, ruleBranch, ruleI1, ruleF6, ruleS3, ruleS3e, ruleE1, ruleE1b, ruleE3, ruleE3s)
 	register("C05", "Decided: per-clause lockstep of size and emitted elements, lane order, decimal hand-off, RESB flow, non-emitting statements, every operand clause contributes or diagnoses, ALIGNB address basis.",
